@@ -326,7 +326,12 @@ CHECKS["C13"] = {
             "other entry is a default-argument variant, it is the entry carrying the most arguments, a set holding two entries neither of which extends the other is refused "
             "however many entries it has, and nothing else is refused as ambiguous (C13_connected_signal_is_the_declared_one, C13_connected_variant_carries_most_arguments, "
             "C13_ambiguous_overloads_are_rejected, C13_default_argument_variants_collapse); the model is compared with the real code on generated entry sets (1-5 entries of the "
-            "three kinds, in every order) declared through a generated metatypes file, with an independent S oracle on the QOverload<> of the header. NOT proved: the general "
+            "three kinds, in every order) declared through a generated metatypes file, with an independent S oracle on the QOverload<> of the header. The two other steps of the "
+            "wiring are modelled in model/Callback.v and proved for all inputs: the handler NAME denotes exactly the signal <small><rest> for on<Capital><rest> and nothing otherwise, "
+            "injectively, every small-letter signal having its handler (C13_handler_name_denotes_one_signal, C13_handler_names_are_injective, C13_every_small_signal_has_its_handler; "
+            "K on the public function qtname::callback_to_signal_name over byte strings of every shape); the declared PARAMETERS are accepted exactly when there are no more of them "
+            "than signal arguments and the k-th argument is assignable to the k-th parameter in the sense of spec/Typing.v (C13_parameters_accepted_iff_leading_arguments_fit, "
+            "C13_too_many_parameters_are_refused; K and an independent S rule on handlers over a generated class whose signals carry argument lists over 15 types). NOT proved: the general "
             "statement about the EFFECTS for all handlers -- an open obligation; those theorems are named C13_partial_*.",
     "technique": "executable Coq reference semantics with partial proofs + execution of the real emitted C++ (signal emission against the API model) compared with it + header scan for the wiring",
     "design_ref": "5 C13",
